@@ -505,6 +505,34 @@ pub fn run_c14(run: &Run) {
         run.add_counts(0, st, st, 0);
     }
     drop(tmp);
+    // once more with a logger that accepts TRACE records: A(2), native and bridged, exported fresh and after one call
+    {
+        crate::report::trace_logging(true);
+        let src = Source::FamCompact(fam_a(2));
+        let res = run.par_family(
+            "A(2): native and bridged objects after every call sequence of length <= 1, with trace logging switched on",
+            src.size() * 2,
+            || 0u64,
+            |st, k| {
+                let c = src.get(k / 2);
+                let bridged = k % 2 == 1;
+                for len in 0..=1usize {
+                    for sk in 0..(CALLS as u64).pow(len as u32) {
+                        let seq = decode_seq(sk, len);
+                        *st += 2;
+                        for (kind, msg) in state_case(&c.text, &c.tts, bridged, &seq) {
+                            run.violation(&format!("trace-logging:{}", kind), format!("{} on {} (a logger accepting TRACE records is installed)", msg, c.text), json!({"type": "persist", "text": c.text, "tts": c.tts, "bridged": bridged, "calls": seq, "trace_logging": true}));
+                        }
+                    }
+                }
+            },
+            &|k| src.describe(k / 2),
+        );
+        for st in res {
+            run.add_counts(0, st, st, 0);
+        }
+        crate::report::trace_logging(false);
+    }
     run.extra("states_are", json!("ADF objects at the moment of export (input x back-end x call history)"));
     run.extra("transitions_are", json!("round trips executed and CLI runs"));
 }
